@@ -36,6 +36,9 @@ def _variants(base):
     out = [base]
     for mix in (RuntimeError, AttributeError, KeyError, NotImplementedError, TypeError, LookupError, ValueError):
         out.append(type(base.__name__, (base, mix), {"__module__": base.__module__}))
+    # an exception object that is falsy (defines __len__ / __bool__): `if error:` is not `if error is not None`
+    out.append(type(base.__name__, (base,), {"__module__": base.__module__, "__bool__": lambda self: False}))
+    out.append(type(base.__name__, (base,), {"__module__": base.__module__, "__len__": lambda self: 0}))
     return out
 
 
